@@ -58,11 +58,20 @@ TRANSFORMS = ('rank', 'sqrt', 'positive', 'minmax', 'geotopological', 'geodesic'
 MEASURES = (None, 'squared euclidean', 'squared mahalanobis', 'crossnobis', 'euclidean', 'correlation (ranks)',
             'sqrt of unknown measure')
 DESC_KINDS = ('none', 'scalars', 'lists', 'arrays')
+# container sweep: tuple-typed descriptors (int and str labels, first-appearance order different from the sorted order) and
+# vector-valued (2-D) descriptors.  Kept apart from DESC_KINDS so that the rotation of the earlier cases is unchanged.
+DESC_KINDS_X = ('tuples', 'vectors')
+# typed-data sweep: dtypes of the dissimilarity vectors handed to RDMs(...)
+INT_DTYPES = ('int8', 'uint8', 'int16', 'uint16', 'int32', 'int64')
+TYPED = INT_DTYPES + ('float32',)
 # strictly increasing value palettes (level -> value); row r of a stack uses palette r % 3, so that the RDMs of one stack
 # live on different ranges (per-RDM ranks / min-max differ from pooled ones)
 PALETTES = ([-1.5, -0.25, 0.0, 0.5, 2.0, 7.0],
             [-30.0, -2.0, -0.5, 0.0, 1.0, 1.5],
             [0.0, 0.01, 4.0, 9.0, 16.0, 1.0e6])
+# the same idea inside the range of int8 (with negatives) and of uint8
+PALETTES_INT = ([-3, -1, 0, 2, 5, 90], [-100, -7, -2, 0, 1, 3], [0, 1, 4, 9, 16, 120])
+PALETTES_UINT = ([0, 1, 2, 5, 9, 200], [3, 4, 10, 50, 100, 250], [0, 1, 4, 9, 16, 255])
 
 
 # =====================================================================================================================
@@ -72,14 +81,59 @@ def _n_pairs(n_cond):
     return n_cond * (n_cond - 1) // 2
 
 
-def _rows_to_vectors(rows):
-    """rows of levels (None = missing) -> float array, row r through palette r % 3"""
+def _rows_to_vectors(rows, dtype=None):
+    """rows of levels (None = missing) -> float array, row r through palette r % 3 (integer palettes for integer dtypes)"""
+    pals = PALETTES
+    if dtype is not None and np.dtype(dtype).kind == 'i':
+        pals = PALETTES_INT
+    if dtype is not None and np.dtype(dtype).kind == 'u':
+        pals = PALETTES_UINT
     out = np.empty((len(rows), len(rows[0])))
     for r, row in enumerate(rows):
-        pal = PALETTES[r % len(PALETTES)]
+        pal = pals[r % len(pals)]
         for k, lev in enumerate(row):
             out[r, k] = NAN if lev is None else pal[lev]
     return out
+
+
+class CaseInvalid(Exception):
+    pass
+
+
+def _values(v, dtype):
+    """the float64 values that the cast to dtype leaves of v -- what the library is really given; integer dtypes: rounded,
+    have to fit the range and cannot hold missing entries"""
+    v = np.array(v, dtype=float)
+    if dtype is None:
+        return v
+    dt = np.dtype(dtype)
+    if dt.kind in 'iu':
+        if np.isnan(v).any():
+            raise CaseInvalid('missing entries in an integer-typed RDM')
+        r = np.round(v)
+        info = np.iinfo(dt)
+        if r.min() < info.min or r.max() > info.max:
+            raise CaseInvalid(f'values outside the range of {dtype}')
+        return r.astype(dt).astype(float)
+    with np.errstate(over='ignore'):
+        return v.astype(dt).astype(float)
+
+
+def _units(v, case):
+    """dimension sweeps common to the value oracles: the unit (case['scale'], case['shift']: x -> scale * x + shift) and the
+    dtype (case['dtype']) of the dissimilarities.  Returns the float64 values of what the library is given."""
+    v = np.array(v, dtype=float)
+    if 'scale' in case or 'shift' in case:
+        v = v * float(case.get('scale', 1.0)) + float(case.get('shift', 0.0))
+    return _values(v, case.get('dtype'))
+
+
+def _tol(dtype, base):
+    """precision asked of a result: that of float64 arithmetic (base) unless the dissimilarities are narrower than 32 bit /
+    float32, where single precision suffices (numpy's own promotion: int16 -> float32).  Half precision does not."""
+    if dtype is None or np.dtype(dtype).itemsize >= 4 and np.dtype(dtype).kind in 'iu':
+        return base
+    return max(base, 2e-6)
 
 
 def _desc(kind, n_rdm, n_cond):
@@ -96,6 +150,16 @@ def _desc(kind, n_rdm, n_cond):
                  'index': [100 + i for i in range(n_rdm)]},
                 {'cond': ['b', 'a'] * (n_cond // 2) + ['z'] * (n_cond % 2), 'w': [0.5 * i for i in range(n_cond)],
                  'index': [n_cond - i for i in range(n_cond)]})
+    if kind == 'tuples':  # tuple-typed; int and str labels; repeated, interleaved, first appearance != sorted order
+        return ({'tags': ('p', 'q'), 'run': 7},
+                {'subj': tuple((5 * i + 2) % 4 for i in range(n_rdm)), 'name': tuple('s%d' % (n_rdm - i) for i in range(n_rdm))},
+                {'cond': tuple('zxy'[(2 * i) % 3] for i in range(n_cond)), 'num': tuple((3 * i + 1) % 5 for i in range(n_cond)),
+                 'index': tuple(10 * (n_cond - i) for i in range(n_cond))})
+    if kind == 'vectors':  # vector-valued (2-D) descriptors, as arrays and as lists of lists
+        return ({'centre': np.array([1.5, -2.0, 3.0])},
+                {'coord': np.arange(n_rdm * 3).reshape(n_rdm, 3)[::-1] * 0.5, 'subj': [3 - (i % 2) for i in range(n_rdm)]},
+                {'pos': np.arange(n_cond * 2).reshape(n_cond, 2) % 3, 'feat': [[i, i % 2] for i in range(n_cond)],
+                 'cond': ['c%d' % (i % 2) for i in range(n_cond)]})
     if kind == 'arrays':
         return ({'roi': np.array([1, 2, 3])},
                 {'subj': np.arange(n_rdm)[::-1] * 2, 'name': np.array(['s%d' % i for i in range(n_rdm)])},
@@ -115,10 +179,13 @@ def _expected_desc(kind, n_rdm, n_cond):
     return d, r, p
 
 
-def _mk(vectors, measure=None, kind='none'):
-    """a FRESH RDMs object (own array, own descriptor dicts)"""
+def _mk(vectors, measure=None, kind='none', dtype=None):
+    """a FRESH RDMs object (own array, own descriptor dicts); dtype: the dissimilarities are handed over in that dtype
+    (the values must be representable in it: see _values)"""
     from rsatoolbox.rdm import RDMs
     v = np.array(vectors, dtype=float).copy()
+    if dtype is not None:
+        v = v.astype(dtype)
     n_rdm = v.shape[0]
     n_cond = int(round((1 + math.sqrt(1 + 8 * v.shape[1])) / 2))
     d, r, p = _desc(kind, n_rdm, n_cond)
@@ -285,8 +352,9 @@ def _check_meta(out, tname, measure, kind, n_rdm, n_cond):
     return None
 
 
-def _vec_diff(got, want, tol=1e-12):
-    """None if equal (NaN and +-inf positions identical, finite entries within tol relative to max(1,|want|)), else text"""
+def _vec_diff(got, want, tol=1e-12, rel=False):
+    """None if equal (NaN and +-inf positions identical, finite entries within tol relative to max(1,|want|); rel=True:
+    relative to |want| itself, for data in extreme units), else text"""
     got = np.asarray(got, dtype=float)
     want = np.asarray(want, dtype=float)
     if got.shape != want.shape:
@@ -298,7 +366,7 @@ def _vec_diff(got, want, tol=1e-12):
         elif math.isinf(w) or math.isinf(g):
             ok = g == w
         else:
-            ok = abs(g - w) <= tol * max(1.0, abs(w))
+            ok = abs(g - w) <= tol * (abs(w) if rel else max(1.0, abs(w)))
         if not ok:
             return f'entry {list(idx)}: got {g!r}, expected {w!r}'
     return None
@@ -313,11 +381,12 @@ def _fresh_vectors(vectors):
 # =====================================================================================================================
 @oracle('C17/rank')
 def orc_rank(case):
-    """case: n_cond, rows (levels, None = missing), method (None = default argument), measure, desc"""
-    vectors = _rows_to_vectors(case['rows'])
+    """case: n_cond, rows (levels, None = missing), method (None = default argument), measure, desc; optional scale, shift
+    (unit of the values), dtype (of the dissimilarities handed over)"""
+    vectors = _units(_rows_to_vectors(case['rows'], case.get('dtype')), case)
     n_rdm, n_cond = vectors.shape[0], case['n_cond']
     method = case.get('method')
-    out = _apply('rank', _mk(vectors, case.get('measure'), case.get('desc', 'none')), method)
+    out = _apply('rank', _mk(vectors, case.get('measure'), case.get('desc', 'none'), case.get('dtype')), method)
     msg = _check_meta(out, 'rank', case.get('measure'), case.get('desc', 'none'), n_rdm, n_cond)
     if msg:
         return msg
@@ -333,11 +402,11 @@ def orc_rank(case):
 
 @oracle('C17/elementwise')
 def orc_elementwise(case):
-    """case: which in (sqrt, positive), n_cond, rows, measure, desc"""
+    """case: which in (sqrt, positive), n_cond, rows, measure, desc; optional scale, shift, dtype"""
     which = case['which']
-    vectors = _rows_to_vectors(case['rows'])
+    vectors = _units(_rows_to_vectors(case['rows'], case.get('dtype')), case)
     n_rdm, n_cond = vectors.shape[0], case['n_cond']
-    out = _apply(which, _mk(vectors, case.get('measure'), case.get('desc', 'none')))
+    out = _apply(which, _mk(vectors, case.get('measure'), case.get('desc', 'none'), case.get('dtype')))
     msg = _check_meta(out, which, case.get('measure'), case.get('desc', 'none'), n_rdm, n_cond)
     if msg:
         return msg
@@ -351,17 +420,20 @@ def orc_elementwise(case):
             want[idx] = math.sqrt(max(x, 0.0))
         else:
             want[idx] = max(x, 0.0)
-    d = _vec_diff(got, want, 1e-15)
+    swept = 'scale' in case or 'shift' in case or 'dtype' in case      # extreme units: relative to the value itself
+    d = _vec_diff(got, want, _tol(case.get('dtype'), 1e-15) if which == 'sqrt' else 1e-15, rel=swept)
     if d:
-        return f'{which}_transform of {vectors.tolist()}: {d} ({"sqrt(max(x,0))" if which == "sqrt" else "max(x,0)"})'
+        return (f'{which}_transform of {vectors.tolist()}' + (f' (handed over as {case["dtype"]})' if case.get('dtype') else '')
+                + f': {d} ({"sqrt(max(x,0))" if which == "sqrt" else "max(x,0)"})')
     return None
 
 
 @oracle('C17/minmax')
 def orc_minmax(case):
-    """case: n_cond, rows (no missing, each with >= 2 levels) or seed/n_rdm for random values, measure, desc"""
+    """case: n_cond, rows (no missing, each with >= 2 levels) or seed/n_rdm for random values, measure, desc; optional
+    scale, shift, dtype"""
     if 'rows' in case:
-        vectors = _rows_to_vectors(case['rows'])
+        vectors = _rows_to_vectors(case['rows'], case.get('dtype'))
     else:
         rs = np.random.RandomState(case['seed'])
         vectors = rs.randn(case['n_rdm'], _n_pairs(case['n_cond'])) * rs.uniform(0.01, 100, (case['n_rdm'], 1)) \
@@ -369,11 +441,12 @@ def orc_minmax(case):
         if case.get('ties'):
             vectors = np.round(vectors, 0)
             vectors[:, 0] = vectors.min(axis=1) - 1.0      # never constant
+    vectors = _units(vectors, case)
     n_rdm, n_cond = vectors.shape[0], case['n_cond']
     for r in range(n_rdm):
         if len(set(vectors[r].tolist())) < 2:
             return 'CASE INVALID: constant RDM'
-    out = _apply('minmax', _mk(vectors, case.get('measure'), case.get('desc', 'none')))
+    out = _apply('minmax', _mk(vectors, case.get('measure'), case.get('desc', 'none'), case.get('dtype')))
     msg = _check_meta(out, 'minmax', case.get('measure'), case.get('desc', 'none'), n_rdm, n_cond)
     if msg:
         return msg
@@ -390,7 +463,7 @@ def orc_minmax(case):
             if not 0.0 <= g[k] <= 1.0:
                 return f'minmax rdm {r}: {x[k]} mapped to {g[k]!r} outside [0,1]'
             want = (x[k] - lo) / (hi - lo)
-            if abs(g[k] - want) > 1e-12:
+            if abs(g[k] - want) > _tol(case.get('dtype'), 1e-12):
                 return f'minmax rdm {r}: {x[k]} mapped to {g[k]!r}, expected (x-min)/(max-min) = {want!r} with its own min {lo}, max {hi}'
         for a in range(len(x)):          # increasing: the weak order of the entries is kept
             for b in range(len(x)):
@@ -419,7 +492,26 @@ def _geotop_vectors(case):
         v = np.round(v / step) * step
         if kind == 'values>=1':
             v = np.maximum(v, 1.0)
-    return v
+    return _units(v, case)
+
+
+def _quantile_arg(q, qtype):
+    """the quantile as the caller may hand it over: python float (default), python int (0 / 1 only), numpy scalars, 0-d array"""
+    if qtype in (None, 'float'):
+        return q
+    if qtype == 'int':
+        if q not in (0, 1):
+            raise CaseInvalid('int quantile other than 0 / 1')
+        return int(q)
+    if qtype == 'np.float64':
+        return np.float64(q)
+    if qtype == 'np.float32':
+        if float(np.float32(q)) != q:
+            raise CaseInvalid('quantile not representable in float32')
+        return np.float32(q)
+    if qtype == 'array0d':
+        return np.array(q)
+    raise ValueError(qtype)
 
 
 def geotop_valid(case):
@@ -430,7 +522,8 @@ def geotop_valid(case):
 
 @oracle('C17/geotopological')
 def orc_geotopological(case):
-    """case: seed, n_rdm, n_cond, kind, ties, low, up, measure, desc"""
+    """case: seed, n_rdm, n_cond, kind, ties, low, up, measure, desc; optional scale, shift, dtype, qtype (how the two
+    quantiles are handed over: float / int / np.float64 / np.float32 / array0d)"""
     vectors = _geotop_vectors(case)
     n_rdm, n_cond = vectors.shape[0], case['n_cond']
     low, up = case['low'], case['up']
@@ -438,16 +531,20 @@ def orc_geotopological(case):
     hi = float(np.quantile(vectors, up))
     if not lo < hi:
         return 'CASE INVALID: equal thresholds'
-    out = _apply('geotopological', _mk(vectors, case.get('measure'), case.get('desc', 'none')), (low, up))
+    out = _apply('geotopological', _mk(vectors, case.get('measure'), case.get('desc', 'none'), case.get('dtype')),
+                 (_quantile_arg(low, case.get('qtype')), _quantile_arg(up, case.get('qtype'))))
     msg = _check_meta(out, 'geotopological', case.get('measure'), case.get('desc', 'none'), n_rdm, n_cond)
     if msg:
         return msg
     got = np.asarray(out.get_vectors(), dtype=float)
+    tol = 1e-12
+    if case.get('dtype') == 'float32':   # thresholds and differences in single precision: 6e-8 relative to the values
+        tol = 1e-6 + 4 * 6e-8 * float(np.max(np.abs(vectors))) / (hi - lo)
     for idx in np.ndindex(vectors.shape):
         x = float(vectors[idx])
         want = 0.0 if x < lo else (1.0 if x > hi else (x - lo) / (hi - lo))
         g = float(got[idx])
-        if not abs(g - want) <= 1e-12:
+        if not abs(g - want) <= tol:
             return (f'geotopological_transform(low={low}, up={up}): thresholds l={lo!r}, u={hi!r}; entry {list(idx)} = {x!r} '
                     f'mapped to {g!r}, expected {want!r} (0 below l, 1 above u, (x-l)/(u-l) between)')
     return None
@@ -474,13 +571,13 @@ def _spec_geodesic(x, n_cond, drop_zero_edges):
 
 def _geodesic_vectors(case):
     if 'rows' in case:
-        return _rows_to_vectors(case['rows'])
+        return _units(_rows_to_vectors(case['rows'], case.get('dtype')), case)
     rs = np.random.RandomState(case['seed'])
     v = rs.uniform(-1.0, 4.0, (case['n_rdm'], _n_pairs(case['n_cond']))) * rs.uniform(0.1, 20, (case['n_rdm'], 1))
     if case.get('ties'):
         v = np.round(v)
         v[:, 0] = v.min(axis=1) - 1.0      # never constant
-    return v
+    return _units(v, case)
 
 
 def _geodesic(case, drop_zero_edges):
@@ -489,14 +586,14 @@ def _geodesic(case, drop_zero_edges):
     for r in range(n_rdm):
         if len(set(vectors[r].tolist())) < 2:
             return 'CASE INVALID: constant RDM'
-    out = _apply('geodesic', _mk(vectors, case.get('measure'), case.get('desc', 'none')))
+    out = _apply('geodesic', _mk(vectors, case.get('measure'), case.get('desc', 'none'), case.get('dtype')))
     msg = _check_meta(out, 'geodesic', case.get('measure'), case.get('desc', 'none'), n_rdm, n_cond)
     if msg:
         return msg
     got = np.asarray(out.get_vectors(), dtype=float)
     for r in range(n_rdm):
         want = _spec_geodesic([float(t) for t in vectors[r]], n_cond, drop_zero_edges)
-        d = _vec_diff(got[r], want, 1e-12)
+        d = _vec_diff(got[r], want, _tol(case.get('dtype'), 1e-12) * (n_cond if case.get('dtype') else 1))
         if d:
             what = ('graph without maximal and without zero-weight edges' if drop_zero_edges
                     else 'min-max graph without its maximal edges')
@@ -521,20 +618,21 @@ def orc_geodesic_guard(case):
 
 @oracle('C17/custom')
 def orc_custom(case):
-    """case: seed, n_rdm, n_cond, fun, measure, desc, nan"""
+    """case: seed, n_rdm, n_cond, fun, measure, desc, nan; optional scale, shift, dtype"""
     T = _T()
     rs = np.random.RandomState(case['seed'])
     n_rdm, n_cond = case['n_rdm'], case['n_cond']
     vectors = np.round(rs.uniform(-3, 3, (n_rdm, _n_pairs(n_cond))), 1)
     if case.get('nan'):
-        vectors[0, 1] = NAN
+        vectors[0, 1 % vectors.shape[1]] = NAN
+    vectors = _units(vectors, case)
     base = _custom_fun(case['fun'])
     seen = []
 
     def fun(v):
         seen.append(np.array(v, dtype=float).copy())
         return base(v)
-    out = T.transform(_mk(vectors, case.get('measure'), case.get('desc', 'none')), fun)
+    out = T.transform(_mk(vectors, case.get('measure'), case.get('desc', 'none'), case.get('dtype')), fun)
     msg = _check_meta(out, 'custom', case.get('measure'), case.get('desc', 'none'), n_rdm, n_cond)
     if msg:
         return msg
@@ -543,7 +641,7 @@ def orc_custom(case):
     d = _vec_diff(seen[0], vectors, 0.0)
     if d:
         return f'transform handed the function something else than the {n_rdm} x {_n_pairs(n_cond)} vectors: {d}'
-    want = base(_fresh_vectors(vectors))
+    want = base(_fresh_vectors(vectors) if not case.get('dtype') else _fresh_vectors(vectors).astype(case['dtype']))
     d = _vec_diff(out.get_vectors(), want, 0.0)
     if d:
         return f'transform(rdms, {case["fun"]}): result is not fun(vectors): {d}'
